@@ -383,3 +383,444 @@ Section Bal.
       specialize (Hge x Hx) as G1. specialize (Hge y Hy) as G2. lia.
   Qed.
 End Bal.
+
+(* ================= the cut search at HEAD ================= *)
+
+Lemma nth_opt_firstn {A} (l : list A) k j x : nth_opt (firstn k l) j = Some x -> nth_opt l j = Some x.
+Proof.
+  revert k j; induction l as [|y t IH]; intros [|k] [|j] H; cbn [firstn nth_opt] in *; try discriminate; auto.
+  eapply IH; exact H.
+Qed.
+Lemma nth_opt_skipn {A} (l : list A) k j : nth_opt (skipn k l) j = nth_opt l (k + j).
+Proof.
+  revert k j; induction l as [|y t IH]; intros [|k] j; cbn [skipn nth_opt Nat.add]; try reflexivity.
+  apply IH.
+Qed.
+Lemma nth_opt_app_r {A} (l r : list A) x : nth_opt (l ++ x :: r) (length l) = Some x.
+Proof. induction l as [|y t IH]; cbn [app length nth_opt]; auto. Qed.
+Lemma nth_opt_app_l {A} (l r : list A) j x : nth_opt l j = Some x -> nth_opt (l ++ r) j = Some x.
+Proof.
+  revert j; induction l as [|y t IH]; intros [|j] H; cbn [app nth_opt] in *; try discriminate; auto.
+Qed.
+
+Section Search.
+  Variable C : Type.
+  Variables ltb leb : C -> C -> bool.
+  Variable mid : C -> C -> C.
+  Variables dist addc : C -> C -> C.
+  Variables zero inf : C.
+  Variable within_tol : Z -> Z -> bool.
+  Variable valid : C -> bool.
+  (* [fin]: the finite coordinates *)
+  Variable fin : C -> bool.
+
+  Hypothesis lt_irrefl : forall x, valid x = true -> ltb x x = false.
+  Hypothesis lt_negtrans : forall x y z, valid x = true -> valid y = true -> valid z = true ->
+    ltb x y = true -> ltb x z = true \/ ltb z y = true.
+  Hypothesis lt_trans : forall x y z, valid x = true -> valid y = true -> valid z = true ->
+    ltb x y = true -> ltb y z = true -> ltb x z = true.
+  Hypothesis le_lt : forall x y, valid x = true -> valid y = true -> leb x y = negb (ltb y x).
+  Hypothesis inf_valid : valid inf = true.
+  Hypothesis fin_valid : forall x, fin x = true -> valid x = true.
+  Hypothesis fin_inf : forall x, fin x = true -> ltb x inf = true.
+  (* the two facts about the midpoint the balance proof uses (true of
+     `min / 2.0 + max / 2.0` on finite binary32 values; NOT proved here for
+     SpecFloat): it is finite, and when it does not fall strictly between its
+     arguments no finite value does *)
+  Hypothesis mid_fin : forall a b, fin a = true -> fin b = true -> fin (mid a b) = true.
+  Hypothesis mid_exhausted : forall a b x, fin a = true -> fin b = true -> fin x = true ->
+    negb (ltb a (mid a b) && ltb (mid a b) b) = true -> ltb a x = true -> ltb x b = true -> False.
+
+  Notation keyed := (keyed C).
+  Notation wsum := (wsum C).
+  Notation bob := (balanced_or_bracket C ltb within_tol).
+  (* the variant at HEAD: repaired stop rules, pivot by coordinate, last probe at max *)
+  Notation fold_step := (fold_step C ltb dist zero true).
+  Notation fold_chunk := (fold_chunk C ltb dist zero true).
+  Notation par_fold := (par_fold C ltb dist zero inf true).
+  Notation search := (search C ltb leb mid dist addc zero inf within_tol false true true).
+
+  Definition aw_of (xs : list keyed) : list (C * Z) := map (fun x => (fst x, wt (snd x))) xs.
+  Definition Wl (t : C) (xs : list keyed) : Z := wsum (filter (fun q => ltb (fst q) t) (aw_of xs)).
+  Definition fkey (x : keyed) : Prop := fin (fst x) = true.
+
+  Lemma Wl_app t a b : Wl t (a ++ b) = Wl t a + Wl t b.
+  Proof. unfold Wl, aw_of. rewrite map_app, filter_app. apply wsum_app. Qed.
+  Lemma Wl_nil t : Wl t [] = 0.
+  Proof. reflexivity. Qed.
+  Lemma Wl_one t x : Wl t [x] = if ltb (fst x) t then wt (snd x) else 0.
+  Proof. unfold Wl, aw_of. cbn [map filter fst]. destruct (ltb (fst x) t); cbn; lia. Qed.
+
+  Lemma lt_asym x y : valid x = true -> valid y = true -> ltb x y = true -> ltb y x = false.
+  Proof.
+    intros Hx Hy H. destruct (ltb y x) eqn:E; [|reflexivity].
+    pose proof (lt_trans x y x Hx Hy Hx H E) as Q. rewrite (lt_irrefl x Hx) in Q. discriminate.
+  Qed.
+
+  (* what the fold/reduce returns, for EVERY split tree *)
+  Definition PF (t : C) (base : nat) (xs : list keyed) (a : acc C) : Prop :=
+    let '(cnt, wl, ni, nd) := a in
+    wl = Wl t xs /\ valid nd = true /\
+    match ni with
+    | None => nd = inf /\ forall x, In x xs -> ltb (fst x) t = true \/ ltb (fst x) inf = false
+    | Some i => exists e, (base <= i)%nat /\ nth_opt xs (i - base) = Some e /\ fst e = nd
+                  /\ ltb nd t = false /\ ltb nd inf = true
+                  /\ forall y, In y xs -> ltb (fst y) t = false -> ltb (fst y) nd = false
+    end.
+
+  Lemma fold_chunk_PF t : valid t = true -> forall rest pre base a,
+    Forall (fun x => valid (fst x) = true) (pre ++ rest) ->
+    PF t base pre a ->
+    PF t base (pre ++ rest) (fold_chunk t a (base + length pre) rest).
+  Proof.
+    intros Ht. induction rest as [|[x it] rest IH]; intros pre base a Hv Ha; cbn [Rcb.fold_chunk].
+    - rewrite app_nil_r. exact Ha.
+    - replace (pre ++ (x, it) :: rest) with ((pre ++ [(x, it)]) ++ rest) in * by (rewrite <- app_assoc; reflexivity).
+      replace (S (base + length pre)) with (base + length (pre ++ [(x, it)]))%nat by (rewrite app_length; cbn; lia).
+      apply IH; [exact Hv|].
+      assert (Hvx : valid x = true).
+      { rewrite Forall_forall in Hv. apply (Hv (x, it)). apply in_or_app; left. apply in_or_app; right; left; reflexivity. }
+      assert (Hvp : forall y, In y pre -> valid (fst y) = true).
+      { intros y Hy. rewrite Forall_forall in Hv. apply Hv. apply in_or_app; left. apply in_or_app; left; exact Hy. }
+      destruct a as [[[cnt wl] ni] nd]. unfold Rcb.fold_step. cbn [PF] in *.
+      destruct Ha as (Hwl & Hnd & Hni).
+      destruct (ltb x t) eqn:Ext.
+      + (* left of the target *)
+        split; [rewrite Wl_app, Wl_one; cbn [fst snd]; rewrite Ext; lia|]. split; [exact Hnd|].
+        destruct ni as [i|].
+        * destruct Hni as (e & Hb & He & Hk & Hr & Hf & Hmin). exists e. repeat split; auto.
+          -- apply nth_opt_app_l; exact He.
+          -- intros y Hy Hyt. apply in_app_or in Hy. destruct Hy as [Hy|[<-|[]]]; [apply Hmin; assumption|].
+             cbn [fst] in Hyt. congruence.
+        * destruct Hni as (Hi & Hall). split; [exact Hi|]. intros y Hy. apply in_app_or in Hy.
+          destruct Hy as [Hy|[<-|[]]]; [apply Hall, Hy|left; exact Ext].
+      + destruct (ltb x nd) eqn:Exn.
+        * (* new nearest *)
+          split; [rewrite Wl_app, Wl_one; cbn [fst snd]; rewrite Ext; lia|]. split; [exact Hvx|].
+          exists (x, it). split; [lia|]. split.
+          { replace (base + length pre - base)%nat with (length pre) by lia. apply nth_opt_app_r. }
+          split; [reflexivity|]. split; [exact Ext|]. split.
+          { destruct ni as [i|].
+            - destruct Hni as (e & _ & _ & _ & _ & Hf & _). apply (lt_trans x nd inf Hvx Hnd inf_valid Exn Hf).
+            - destruct Hni as (-> & _). exact Exn. }
+          intros y Hy Hyt. apply in_app_or in Hy. destruct Hy as [Hy|[<-|[]]]; [|apply lt_irrefl, Hvx].
+          destruct (ltb (fst y) x) eqn:Q; [|reflexivity]. exfalso.
+          pose proof (lt_trans (fst y) x nd (Hvp y Hy) Hvx Hnd Q Exn) as Q2.
+          destruct ni as [i|].
+          -- destruct Hni as (e & _ & _ & _ & _ & _ & Hmin). rewrite (Hmin y Hy Hyt) in Q2. discriminate.
+          -- destruct Hni as (-> & Hall). destruct (Hall y Hy) as [A|A]; congruence.
+        * split; [rewrite Wl_app, Wl_one; cbn [fst snd]; rewrite Ext; lia|]. split; [exact Hnd|].
+          destruct ni as [i|].
+          -- destruct Hni as (e & Hb & He & Hk & Hr & Hf & Hmin). exists e. repeat split; auto.
+             ++ apply nth_opt_app_l; exact He.
+             ++ intros y Hy Hyt. apply in_app_or in Hy. destruct Hy as [Hy|[<-|[]]]; [apply Hmin; assumption|exact Exn].
+          -- destruct Hni as (-> & Hall). split; [reflexivity|]. intros y Hy. apply in_app_or in Hy.
+             destruct Hy as [Hy|[<-|[]]]; [apply Hall, Hy|right; exact Exn].
+  Qed.
+
+  Lemma PF_acc0 t base : PF t base [] (acc0 C inf).
+  Proof. cbn. split; [reflexivity|]. split; [exact inf_valid|]. split; [reflexivity|]. intros x []. Qed.
+
+  Lemma par_fold_node t k l r base xs :
+    par_fold t (SNode k l r) base xs =
+    reduce C ltb (par_fold t l base (firstn k xs)) (par_fold t r (base + k)%nat (skipn k xs)).
+  Proof. reflexivity. Qed.
+
+  Lemma par_fold_PF t : valid t = true -> forall s base xs,
+    Forall (fun x => valid (fst x) = true) xs -> PF t base xs (par_fold t s base xs).
+  Proof.
+    intros Ht. induction s as [|k l IHl r IHr]; intros base xs Hv; [cbn [Rcb.par_fold]|rewrite par_fold_node].
+    - pose proof (fold_chunk_PF t Ht xs [] base (acc0 C inf) Hv (PF_acc0 t base)) as H.
+      cbn [app length] in H. rewrite Nat.add_0_r in H. exact H.
+    - assert (Hv1 : Forall (fun x : keyed => valid (fst x) = true) (firstn k xs)).
+      { rewrite <- (firstn_skipn k xs) in Hv. apply Forall_app in Hv. tauto. }
+      assert (Hv2 : Forall (fun x : keyed => valid (fst x) = true) (skipn k xs)).
+      { rewrite <- (firstn_skipn k xs) in Hv. apply Forall_app in Hv. tauto. }
+      specialize (IHl base (firstn k xs) Hv1). specialize (IHr (base + k)%nat (skipn k xs) Hv2).
+      unfold Rcb.keyed in *.
+      match goal with |- PF _ _ _ (reduce _ _ ?a ?b) =>
+        destruct a as [[[c0 w0] n0] d0]; destruct b as [[[c1 w1] n1] d1] end.
+      unfold PF in IHl, IHr. destruct IHl as (Hw0 & Hd0 & Hn0), IHr as (Hw1 & Hd1 & Hn1).
+      assert (Hw : w0 + w1 = Wl t xs).
+      { rewrite <- (firstn_skipn k xs) at 1. rewrite Wl_app. lia. }
+      assert (Hin : forall y, In y xs -> In y (firstn k xs) \/ In y (skipn k xs)).
+      { intros y Hy. rewrite <- (firstn_skipn k xs) in Hy. apply in_app_or, Hy. }
+      assert (Hvy : forall y, In y xs -> valid (fst y) = true).
+      { rewrite Forall_forall in Hv. exact Hv. }
+      assert (Hin1 : forall y, In y (firstn k xs) -> In y xs).
+      { intros y Hy. rewrite <- (firstn_skipn k xs). apply in_or_app; left; exact Hy. }
+      assert (Hin2 : forall y, In y (skipn k xs) -> In y xs).
+      { intros y Hy. rewrite <- (firstn_skipn k xs). apply in_or_app; right; exact Hy. }
+      (* index transport *)
+      assert (Hidx1 : forall i e, (base <= i)%nat -> nth_opt (firstn k xs) (i - base) = Some e ->
+                                  nth_opt xs (i - base) = Some e).
+      { intros i e _ H. eapply nth_opt_firstn; exact H. }
+      assert (Hidx2 : forall i e, (base + k <= i)%nat -> nth_opt (skipn k xs) (i - (base + k)) = Some e ->
+                                  (base <= i)%nat /\ nth_opt xs (i - base) = Some e).
+      { intros i e Hb H. split; [lia|]. rewrite nth_opt_skipn in H.
+        replace (i - base)%nat with (k + (i - (base + k)))%nat by lia. exact H. }
+      unfold Rcb.reduce.
+      destruct n0 as [i0|], n1 as [i1|].
+      + destruct Hn0 as (e0 & B0 & E0 & K0 & R0 & F0 & M0), Hn1 as (e1 & B1 & E1 & K1 & R1 & F1 & M1).
+        destruct (ltb d0 d1) eqn:Q; unfold PF; (split; [exact Hw|]).
+        * split; [exact Hd0|]. exists e0. repeat split; auto.
+          intros y Hy Hyt. destruct (Hin y Hy) as [A|A]; [apply M0; assumption|].
+          destruct (ltb (fst y) d0) eqn:Q2; [|reflexivity]. exfalso.
+          pose proof (lt_trans (fst y) d0 d1 (Hvy y Hy) Hd0 Hd1 Q2 Q) as Q3. rewrite (M1 y A Hyt) in Q3. discriminate.
+        * split; [exact Hd1|]. destruct (Hidx2 i1 e1 B1 E1) as [B1' E1']. exists e1. repeat split; auto.
+          intros y Hy Hyt. destruct (Hin y Hy) as [A|A]; [|apply M1; assumption].
+          destruct (ltb (fst y) d1) eqn:Q2; [|reflexivity]. exfalso.
+          destruct (lt_negtrans (fst y) d1 d0 (Hvy y Hy) Hd1 Hd0 Q2) as [Q3|Q3]; [|congruence].
+          rewrite (M0 y A Hyt) in Q3. discriminate.
+      + destruct Hn0 as (e0 & B0 & E0 & K0 & R0 & F0 & M0), Hn1 as (-> & A1).
+        rewrite F0. unfold PF. split; [exact Hw|]. split; [exact Hd0|]. exists e0. repeat split; auto.
+        intros y Hy Hyt. destruct (Hin y Hy) as [A|A]; [apply M0; assumption|].
+        destruct (A1 y A) as [Q|Q]; [congruence|].
+        destruct (ltb (fst y) d0) eqn:Q2; [|reflexivity]. exfalso.
+        pose proof (lt_trans (fst y) d0 inf (Hvy y Hy) Hd0 inf_valid Q2 F0). congruence.
+      + destruct Hn0 as (-> & A0), Hn1 as (e1 & B1 & E1 & K1 & R1 & F1 & M1).
+        rewrite (lt_asym d1 inf Hd1 inf_valid F1). unfold PF. split; [exact Hw|]. split; [exact Hd1|].
+        destruct (Hidx2 i1 e1 B1 E1) as [B1' E1']. exists e1. repeat split; auto.
+        intros y Hy Hyt. destruct (Hin y Hy) as [A|A]; [|apply M1; assumption].
+        destruct (A0 y A) as [Q|Q]; [congruence|].
+        destruct (ltb (fst y) d1) eqn:Q2; [|reflexivity]. exfalso.
+        pose proof (lt_trans (fst y) d1 inf (Hvy y Hy) Hd1 inf_valid Q2 F1). congruence.
+      + destruct Hn0 as (-> & A0), Hn1 as (-> & A1). rewrite (lt_irrefl inf inf_valid). unfold PF.
+        split; [exact Hw|]. split; [exact inf_valid|]. split; [reflexivity|].
+        intros y Hy. destruct (Hin y Hy) as [A|A]; [apply A0, A|apply A1, A].
+  Qed.
+  (* ---------- the loop invariant of the search ---------- *)
+
+  Variable xs : list keyed.
+  Variable sum : Z.
+  Hypothesis xs_fin : Forall fkey xs.
+  Hypothesis xs_nonneg : Forall (fun x => 0 <= wt (snd x)) xs.
+  Hypothesis sum_true : sum = wsum (aw_of xs).
+
+  Let aw := aw_of xs.
+
+  Lemma aw_vaw : vaw C valid aw.
+  Proof.
+    unfold aw, aw_of, vaw. rewrite Forall_forall. intros q Hq. apply in_map_iff in Hq.
+    destruct Hq as (x & <- & Hx). cbn [fst snd]. rewrite Forall_forall in xs_fin, xs_nonneg.
+    split; [apply fin_valid, xs_fin, Hx|apply xs_nonneg, Hx].
+  Qed.
+
+  Lemma aw_fin q : In q aw -> fin (fst q) = true.
+  Proof.
+    unfold aw, aw_of. intros Hq. apply in_map_iff in Hq. destruct Hq as (x & <- & Hx).
+    rewrite Forall_forall in xs_fin. apply xs_fin, Hx.
+  Qed.
+  Lemma aw_in x : In x xs -> In (fst x, wt (snd x)) aw.
+  Proof. intros H. unfold aw, aw_of. apply (in_map (fun x => (fst x, wt (snd x)))) in H. exact H. Qed.
+
+  Definition I1 (mn : C) : Prop := 2 * Wl mn xs < sum \/ (forall q, In q aw -> ltb (fst q) mn = false).
+  Definition I2 (mx : C) : Prop := 2 * Wl mx xs >= sum \/ (forall q, In q aw -> ltb mx (fst q) = false).
+
+  Lemma Wl_mono a b : (forall q, In q aw -> ltb (fst q) a = true -> ltb (fst q) b = true) -> Wl a xs <= Wl b xs.
+  Proof. intros H. unfold Wl. apply (wsum_filter_le C valid); [exact aw_vaw|exact H]. Qed.
+
+  Lemma Wl_split t : sum = Wl t xs + wsum (filter (fun q => negb (ltb (fst q) t)) aw).
+  Proof. rewrite sum_true. unfold Wl. apply wsum_filter_split. Qed.
+
+  Lemma Wl_nonneg t : 0 <= Wl t xs.
+  Proof. unfold Wl. apply (wsum_nonneg C valid), (vaw_filter C valid), aw_vaw. Qed.
+
+  Lemma filter_all {A} (f : A -> bool) l : (forall q, In q l -> f q = true) -> filter f l = l.
+  Proof.
+    induction l as [|q l IH]; intros H; cbn [filter]; [reflexivity|].
+    rewrite (H q (or_introl eq_refl)). f_equal. apply IH. intros; apply H; right; assumption.
+  Qed.
+  Lemma filter_none {A} (f : A -> bool) l : (forall q, In q l -> f q = false) -> filter f l = [].
+  Proof.
+    induction l as [|q l IH]; intros H; cbn [filter]; [reflexivity|].
+    rewrite (H q (or_introl eq_refl)). apply IH. intros; apply H; right; assumption.
+  Qed.
+
+  Lemma wsum_filter_filter_le (f g : C * Z -> bool) l : vaw C valid l ->
+    wsum (filter f (filter g l)) <= wsum (filter f l).
+  Proof.
+    induction 1 as [|q l [_ Hq] Hl IH]; cbn [filter]; [lia|].
+    destruct (g q); cbn [filter]; destruct (f q); rewrite ?wsum_cons; lia.
+  Qed.
+
+  (* weight strictly below a point coordinate c that is not above mn *)
+  Lemma below_mn mn c : fin mn = true -> fin c = true -> ltb mn c = false -> I1 mn -> 2 * Wl c xs <= sum.
+  Proof.
+    intros Hmn Hc Hle H1.
+    assert (Hm : Wl c xs <= Wl mn xs).
+    { apply Wl_mono. intros q Hq Hqc.
+      destruct (lt_negtrans (fst q) c mn (fin_valid _ (aw_fin q Hq)) (fin_valid _ Hc) (fin_valid _ Hmn) Hqc) as [A|A];
+        [exact A|congruence]. }
+    destruct H1 as [H1|H1]; [lia|].
+    assert (Z0 : Wl mn xs = 0).
+    { unfold Wl. fold aw. rewrite (filter_none _ aw); [reflexivity|]. intros q Hq. apply H1, Hq. }
+    pose proof (Wl_nonneg c). pose proof (Wl_split c).
+    assert (0 <= wsum (filter (fun q => negb (ltb (fst q) c)) aw))
+      by (apply (wsum_nonneg C valid), (vaw_filter C valid), aw_vaw).
+    lia.
+  Qed.
+
+  Definition Post (sr : split_res C) : Prop :=
+    match sr with
+    | AllLeft pos => bob aw [] /\ fin pos = true /\ (forall q, In q aw -> ltb pos (fst q) = false)
+    | SplitAt i wl pos why =>
+      exists p, nth_opt xs i = Some p /\ fin pos = true
+        /\ (forall q, In q aw -> ltb (fst q) (fst p) = ltb (fst q) pos)
+        /\ wl = Wl pos xs
+        /\ bob (filter (fun q => ltb (fst q) pos) aw) (filter (fun q => negb (ltb (fst q) pos)) aw)
+    end.
+
+  Lemma search_S f sch it mn mx prev :
+    search (S f) sch it xs sum mn mx prev =
+    let m := mid mn mx in
+    let exhausted := negb (ltb mn m && ltb m mx) in
+    let t := if true && exhausted then mx else m in
+    let '(cnt, wl, ni, nd) := par_fold t (sch it) 0%nat xs in
+    match ni with
+    | None => if exhausted then Ok (AllLeft mx) else search f sch (S it) xs sum mn t prev
+    | Some i =>
+      let wr := sum - wl in
+      let nothing_right := leb mx nd in
+      let tol := within_tol wl sum in
+      if exhausted || ((wl <? wr) && nothing_right) || tol then
+        Ok (SplitAt i wl t (if tol then StTol else if exhausted then StExhausted else StNothingRight))
+      else if wl <? wr then search f sch (S it) xs sum t mx prev
+      else search f sch (S it) xs sum mn t prev
+    end.
+  Proof. reflexivity. Qed.
+
+  (* all points of the high side are equivalent: moving past any of them takes the whole side *)
+  Lemma upto_all (R : list (C * Z)) (y : C * Z) :
+    (forall q, In q R -> ltb (fst y) (fst q) = false) -> upto C ltb R (fst y) = wsum R.
+  Proof.
+    intros H. unfold Rcb.upto. rewrite filter_all; [reflexivity|]. intros q Hq. rewrite (H q Hq). reflexivity.
+  Qed.
+
+  Theorem search_post : forall fuel sch it mn mx prev sr,
+    fin mn = true -> fin mx = true -> I1 mn -> I2 mx ->
+    search fuel sch it xs sum mn mx prev = Ok sr -> Post sr.
+  Proof.
+    assert (Hsum0 : 0 <= sum) by (rewrite sum_true; apply (wsum_nonneg C valid), aw_vaw).
+    induction fuel as [|f IH]; intros sch it mn mx prev sr Hmn Hmx H1 H2 H; [discriminate|].
+    rewrite search_S in H. cbv zeta in H.
+    set (m := mid mn mx) in *.
+    assert (Hm : fin m = true) by (apply mid_fin; assumption).
+    destruct (negb (ltb mn m && ltb m mx)) eqn:Eexh.
+    - (* exhausted: probe at mx *)
+      cbn [andb] in H.
+      pose proof (par_fold_PF mx (fin_valid _ Hmx) (sch it) 0%nat xs) as HPF.
+      assert (Hvx : Forall (fun x : keyed => valid (fst x) = true) xs).
+      { rewrite Forall_forall in *. intros x Hx. apply fin_valid, xs_fin, Hx. }
+      specialize (HPF Hvx).
+      destruct (par_fold mx (sch it) 0%nat xs) as [[[cnt wl] ni] nd]. unfold PF in HPF.
+      destruct HPF as (Hwl & Hnd & Hni).
+      (* every point strictly below mx is not above mn *)
+      assert (Hgap : forall c, fin c = true -> ltb c mx = true -> ltb mn c = false).
+      { intros c Hc Hlt. destruct (ltb mn c) eqn:Q; [|reflexivity]. exfalso.
+        exact (mid_exhausted mn mx c Hmn Hmx Hc Eexh Q Hlt). }
+      destruct ni as [i|].
+      + (* split at mx *)
+        destruct Hni as (p & _ & Hp & Hk & Hr & Hf & Hmin). rewrite Nat.sub_0_r in Hp.
+        cbn [orb] in H. inversion H; subst sr. clear H.
+        exists p. split; [exact Hp|]. split; [exact Hmx|]. split; [|split; [exact Hwl|]].
+        { intros q Hq. unfold aw, aw_of in Hq. apply in_map_iff in Hq. destruct Hq as (x & <- & Hx). cbn [fst].
+          rewrite Hk. rewrite Forall_forall in Hvx. destruct (ltb (fst x) mx) eqn:Q.
+          - destruct (lt_negtrans (fst x) mx nd (Hvx x Hx) (fin_valid _ Hmx) Hnd Q) as [A|A]; [exact A|congruence].
+          - apply Hmin; assumption. }
+        set (L := filter (fun q => ltb (fst q) mx) aw). set (R := filter (fun q => negb (ltb (fst q) mx)) aw).
+        assert (HL : wsum L = wl) by (rewrite Hwl; reflexivity).
+        assert (HS : sum = wsum L + wsum R) by (rewrite HL, Hwl; apply Wl_split).
+        unfold Rcb.balanced_or_bracket. rewrite <- HS, HL.
+        destruct (Z.lt_total (2 * wl) sum) as [Hlt|[Heq|Hgt]]; [|right; left; exact Heq|].
+        * right; right; left. split; [exact Hlt|]. intros y Hy.
+          destruct H2 as [H2|H2]; [rewrite <- Hwl in H2; lia|].
+          rewrite upto_all; [lia|]. intros q Hq.
+          apply filter_In in Hy, Hq. destruct Hy as [Hy Hy2], Hq as [Hq Hq2]. apply negb_true_iff in Hy2, Hq2.
+          destruct (ltb (fst y) (fst q)) eqn:Q; [|reflexivity]. exfalso.
+          destruct (lt_negtrans (fst y) (fst q) mx (fin_valid _ (aw_fin y Hy)) (fin_valid _ (aw_fin q Hq)) (fin_valid _ Hmx) Q) as [A|A];
+            [congruence|]. rewrite (H2 q Hq) in A. discriminate.
+        * right; right; right. split; [lia|]. intros x Hx.
+          apply filter_In in Hx. destruct Hx as [Hx Hx2].
+          pose proof (below_mn mn (fst x) Hmn (aw_fin x Hx) (Hgap _ (aw_fin x Hx) Hx2) H1) as Hb.
+          pose proof (wsum_filter_split C (fun q => negb (ltb (fst q) (fst x))) L) as Hsp.
+          assert (Hle : wsum (filter (fun q => negb (negb (ltb (fst q) (fst x)))) L) <= Wl (fst x) xs).
+          { unfold Wl, L. fold aw.
+            erewrite (filter_ext (fun q => negb (negb (ltb (fst q) (fst x)))) (fun q => ltb (fst q) (fst x)));
+              [|intros q; apply negb_involutive].
+            apply wsum_filter_filter_le, aw_vaw. }
+          cbv beta in Hsp. unfold Rcb.from. lia.
+      + (* all on the left *)
+        destruct Hni as (_ & Hall). inversion H; subst sr. clear H.
+        assert (Hlt : forall q, In q aw -> ltb (fst q) mx = true).
+        { intros q Hq. unfold aw, aw_of in Hq. apply in_map_iff in Hq. destruct Hq as (x & <- & Hx). cbn [fst].
+          destruct (Hall x Hx) as [A|A]; [exact A|]. rewrite Forall_forall in xs_fin. rewrite (fin_inf _ (xs_fin x Hx)) in A. discriminate. }
+        split; [|split; [exact Hmx|]].
+        * unfold Rcb.balanced_or_bracket. change (wsum []) with 0. rewrite Z.add_0_r. fold aw in sum_true. rewrite <- sum_true.
+          pose proof (wsum_nonneg C valid aw aw_vaw) as Hn. rewrite <- sum_true in Hn.
+          destruct (Z.eq_dec sum 0) as [Z0|NZ]; [right; left; lia|].
+          right; right; right. split; [lia|]. intros x Hx.
+          pose proof (below_mn mn (fst x) Hmn (aw_fin x Hx) (Hgap _ (aw_fin x Hx) (Hlt x Hx)) H1) as Hb.
+          pose proof (wsum_filter_split C (fun q => negb (ltb (fst q) (fst x))) aw) as Hsp.
+          assert (Hle : wsum (filter (fun q => negb (negb (ltb (fst q) (fst x)))) aw) = Wl (fst x) xs).
+          { unfold Wl. fold aw. f_equal. apply filter_ext. intros q; apply negb_involutive. }
+          cbv beta in Hsp. unfold Rcb.from. rewrite <- sum_true in Hsp. lia.
+        * intros q Hq. apply lt_asym; [apply fin_valid, aw_fin, Hq|apply fin_valid, Hmx|apply Hlt, Hq].
+    - (* not exhausted: probe at the midpoint, mn < m < mx *)
+      cbn [andb] in H.
+      apply negb_false_iff, andb_true_iff in Eexh. destruct Eexh as [Emn Emx].
+      pose proof (par_fold_PF m (fin_valid _ Hm) (sch it) 0%nat xs) as HPF.
+      assert (Hvx : Forall (fun x : keyed => valid (fst x) = true) xs).
+      { rewrite Forall_forall in *. intros x Hx. apply fin_valid, xs_fin, Hx. }
+      specialize (HPF Hvx).
+      destruct (par_fold m (sch it) 0%nat xs) as [[[cnt wl] ni] nd]. unfold PF in HPF.
+      destruct HPF as (Hwl & Hnd & Hni).
+      destruct ni as [i|].
+      + destruct Hni as (p & _ & Hp & Hk & Hr & Hf & Hmin). rewrite Nat.sub_0_r in Hp.
+        cbn [orb] in H.
+        destruct ((wl <? sum - wl) && leb mx nd || within_tol wl sum) eqn:Estop.
+        * inversion H; subst sr. clear H.
+          exists p. split; [exact Hp|]. split; [exact Hm|]. split; [|split; [exact Hwl|]].
+          { intros q Hq. unfold aw, aw_of in Hq. apply in_map_iff in Hq. destruct Hq as (x & <- & Hx). cbn [fst].
+            rewrite Hk. rewrite Forall_forall in Hvx. destruct (ltb (fst x) m) eqn:Q.
+            - destruct (lt_negtrans (fst x) m nd (Hvx x Hx) (fin_valid _ Hm) Hnd Q) as [A|A]; [exact A|congruence].
+            - apply Hmin; assumption. }
+          set (L := filter (fun q => ltb (fst q) m) aw). set (R := filter (fun q => negb (ltb (fst q) m)) aw).
+          assert (HL : wsum L = wl) by (rewrite Hwl; reflexivity).
+          assert (HS : sum = wsum L + wsum R) by (rewrite HL, Hwl; apply Wl_split).
+          unfold Rcb.balanced_or_bracket. rewrite <- HS, HL.
+          destruct (within_tol wl sum) eqn:Etol; [left; reflexivity|].
+          rewrite orb_false_r in Estop. apply andb_true_iff in Estop. destruct Estop as [Elt Enr].
+          apply Z.ltb_lt in Elt. rewrite (le_lt mx nd (fin_valid _ Hmx) Hnd) in Enr. apply negb_true_iff in Enr.
+          (* no point in [m, mx) *)
+          assert (Hno : forall q, In q aw -> ltb (fst q) m = false -> ltb (fst q) mx = false).
+          { intros q Hq Hqm. destruct (ltb (fst q) mx) eqn:Q; [|reflexivity]. exfalso.
+            unfold aw, aw_of in Hq. apply in_map_iff in Hq. destruct Hq as (x & <- & Hx). cbn [fst] in *.
+            rewrite Forall_forall in Hvx.
+            destruct (lt_negtrans (fst x) mx nd (Hvx x Hx) (fin_valid _ Hmx) Hnd Q) as [A|A]; [|congruence].
+            rewrite (Hmin x Hx Hqm) in A. discriminate. }
+          right; right; left. split; [lia|]. intros y Hy.
+          destruct H2 as [H2|H2].
+          { exfalso. assert (Wl mx xs <= Wl m xs).
+            { apply Wl_mono. intros q Hq Hqx. destruct (ltb (fst q) m) eqn:Q; [reflexivity|].
+              rewrite (Hno q Hq Q) in Hqx. discriminate. }
+            lia. }
+          rewrite upto_all; [lia|]. intros q Hq.
+          apply filter_In in Hy, Hq. destruct Hy as [Hy Hy2], Hq as [Hq Hq2]. apply negb_true_iff in Hy2, Hq2.
+          destruct (ltb (fst y) (fst q)) eqn:Q; [|reflexivity]. exfalso.
+          destruct (lt_negtrans (fst y) (fst q) mx (fin_valid _ (aw_fin y Hy)) (fin_valid _ (aw_fin q Hq)) (fin_valid _ Hmx) Q) as [A|A].
+          -- rewrite (Hno y Hy Hy2) in A. discriminate.
+          -- rewrite (H2 q Hq) in A. discriminate.
+        * destruct (wl <? sum - wl) eqn:Elt.
+          -- apply Z.ltb_lt in Elt. apply (IH _ _ _ _ _ _ Hm Hmx) in H; [exact H| |exact H2].
+             left. rewrite <- Hwl. lia.
+          -- apply Z.ltb_ge in Elt. apply (IH _ _ _ _ _ _ Hmn Hm) in H; [exact H|exact H1|].
+             left. rewrite <- Hwl. lia.
+      + destruct Hni as (_ & Hall).
+        apply (IH _ _ _ _ _ _ Hmn Hm) in H; [exact H|exact H1|].
+        right. intros q Hq. unfold aw, aw_of in Hq. apply in_map_iff in Hq. destruct Hq as (x & <- & Hx). cbn [fst].
+        rewrite Forall_forall in xs_fin, Hvx.
+        destruct (Hall x Hx) as [A|A]; [|rewrite (fin_inf _ (xs_fin x Hx)) in A; discriminate].
+        apply lt_asym; [apply Hvx, Hx|apply fin_valid, Hm|exact A].
+  Qed.
+End Search.
